@@ -108,15 +108,23 @@ def check(ctx):
     pt = sorted((aug_form(n.ast)[0], aug_form(n.ast)[1].__name__, norm(aug_form(n.ast)[2])) for n in post)
     ctx.inst('R2', f, 'subnormal-fixup', pt == [('e', 'Add', '1'), ('f', 'BitAnd', '~1024')], 'after normalisation: exponent + 1 and the implicit bit removed; found %s' % pt)
     infs = [r for r in rets if r.value is not None and any(fact_key('e == 31', True) in g.fact_keys_at(n) for n in g.nodes_of(r))]
-    oki = len(infs) == 2
+    # one return per case (fraction zero: infinity / otherwise: NaN with its payload) or one return for both (f << 13 is 0 for infinity)
+    oki = 1 <= len(infs) <= 2
+    general = 0
     for r in infs:
         _, inner = reinterpret(r.value)
         if inner is None:
             oki = False
             continue
+        keys = set()
+        for n in g.nodes_of(r):
+            keys |= set(g.fact_keys_at(n))
+        f_zero = fact_key('f == 0', True) in keys
+        general += not f_zero
         ib = B_.evaluate(inner, sc, {'s': 's', 'f': 'f'}, {'s': 1, 'f': 10})
         oki = oki and B_.is_input_field(ib, 31, 1, 's') and all(ib[i] == 1 for i in range(23, 31)) and \
-            (all(b == 0 for b in ib[:23]) or B_.is_input_field(ib, 13, 10, 'f'))
+            ((f_zero and all(b == 0 for b in ib[:23])) or B_.is_input_field(ib, 13, 10, 'f'))
+    oki = oki and general == 1
     ctx.inst('R2', f, 'inf-nan', oki, 'exponent 31 maps to sign | 0x7f800000 (| fraction << 13)')
     del aug
 
@@ -236,11 +244,11 @@ def trajectory_rules(ctx, rule='R4'):
     for fn, want in (('_encode_spatial', 'int({0} * 1000)'), ('_encode_yaw', 'int(math.degrees({0}) * 10)')):
         fx = cb_.method(fn)
         rs = [norm(s.value) for s in walk_own(fx.node) if isinstance(s, ast.Return)]
-        ctx.inst(rule, fx, 'unit+no-mask', rs == [want.format(fx.params[1])], '%s returns %s, expected %s (unmasked: struct raises on overflow)' % (fn, rs, want.format(fx.params[1])))
+        ctx.inst(rule, fx, 'unit+no-mask', rs == [want.format(fx.params[-1])], '%s returns %s, expected %s (unmasked: struct raises on overflow)' % (fn, rs, want.format(fx.params[-1])))
     for fn, inner in (('_encode_spatial_element', 'self._encode_spatial'), ('_encode_yaw_element', 'self._encode_yaw')):
         fx = cb_.method(fn)
         rs = [norm(s.value) for s in walk_own(fx.node) if isinstance(s, ast.Return)]
-        ctx.inst(rule, fx, 'elementwise', rs == ['map(%s, %s)' % (inner, fx.params[1])], '%s maps %s over the element; returns %s' % (fn, inner, rs))
+        ctx.inst(rule, fx, 'elementwise', rs == ['map(%s, %s)' % (inner, fx.params[-1])], '%s maps %s over the element; returns %s' % (fn, inner, rs))
     cs = m.func(TRJ, 'CompressedStart.pack')
     pk = [c for c in walk_own(cs.node) if isinstance(c, ast.Call) and dotted(c.func) == 'struct.pack']
     ctx.inst(rule, cs, 'start-record', len(pk) == 1 and [norm(a) for a in pk[0].args] == ["'<hhhh'", 'self._encode_spatial(self.x)', 'self._encode_spatial(self.y)',
@@ -248,6 +256,7 @@ def trajectory_rules(ctx, rule='R4'):
              'start record is <hhhh of x, y, z (mm) and yaw (0.1 deg)')
     sg = m.func(TRJ, 'CompressedSegment.pack')
     st = {norm(s.targets[0]): s.value for s in walk_own(sg.node) if isinstance(s, ast.Assign)}
+    ctx.need('element_types' in st, 'CompressedSegment.pack: element_types not found')
     tb = B_.evaluate(st['element_types'], Scope.of(sg), {'self._encode_type(self.x)': 'x', 'self._encode_type(self.y)': 'y', 'self._encode_type(self.z)': 'z',
                                                         'self._encode_type(self.yaw)': 'w'}, {'x': 2, 'y': 2, 'z': 2, 'w': 2})
     ctx.inst(rule, sg, 'type-nibbles', B_.is_input_field(tb, 0, 2, 'x') and B_.is_input_field(tb, 2, 2, 'y') and B_.is_input_field(tb, 4, 2, 'z') and B_.is_input_field(tb, 6, 2, 'w'),
@@ -260,23 +269,23 @@ def trajectory_rules(ctx, rule='R4'):
     pe = m.func(TRJ, 'CompressedSegment._pack_element')
     pks = [c for c in walk_own(pe.node) if isinstance(c, ast.Call) and dotted(c.func) == 'struct.pack']
     lp = [l for l in walk_own(pe.node) if isinstance(l, ast.For)]
-    ctx.inst(rule, pe, 'element-int16', len(pks) == 1 and len(lp) == 1 and [norm(a) for a in pks[0].args] == ["'<h'", norm(lp[0].target)] and norm(lp[0].iter) == pe.params[1],
+    ctx.inst(rule, pe, 'element-int16', len(pks) == 1 and len(lp) == 1 and [norm(a) for a in pks[0].args] == ["'<h'", norm(lp[0].target)] and norm(lp[0].iter) == pe.params[-1],
              'each part is packed <h in order, unmasked')
     et = m.func(TRJ, 'CompressedSegment._encode_type')
     g = cfg_of(et)
     tbl = {}
     for n in [n for n in g.nodes if n.kind == 'return' and n.ast.value is not None]:
         for k in g.fact_keys_at(n):
-            if k[1] and k[0].endswith('== len(%s)' % et.params[1]):
+            if k[1] and k[0].endswith('== len(%s)' % et.params[-1]):
                 tbl[int(k[0].split(' ')[0])] = fold_in(et, n.ast.value)
-            if not k[1] and k[0] == '0 < len(%s)' % et.params[1] and not any(kk[1] and kk[0].endswith('== len(%s)' % et.params[1]) for kk in g.fact_keys_at(n)):
+            if not k[1] and k[0] == '0 < len(%s)' % et.params[-1] and not any(kk[1] and kk[0].endswith('== len(%s)' % et.params[-1]) for kk in g.fact_keys_at(n)):
                 tbl[0] = fold_in(et, n.ast.value)        # len(element) == 0 is kept as `not 0 < len(element)`
     for n in [n for n in g.nodes if n.kind == 'return' and n.ast.value is not None]:
         v = n.ast.value
         src = None
-        if isinstance(v, ast.Call) and isinstance(v.func, ast.Attribute) and v.func.attr == 'get' and len(v.args) == 1 and norm(v.args[0]) == 'len(%s)' % et.params[1]:
+        if isinstance(v, ast.Call) and isinstance(v.func, ast.Attribute) and v.func.attr == 'get' and len(v.args) == 1 and norm(v.args[0]) == 'len(%s)' % et.params[-1]:
             src = v.func.value
-        elif isinstance(v, ast.Subscript) and norm(v.slice) == 'len(%s)' % et.params[1]:
+        elif isinstance(v, ast.Subscript) and norm(v.slice) == 'len(%s)' % et.params[-1]:
             src = v.value
         if src is not None:                     # a length -> code lookup table
             d = fold_in(et, src)
